@@ -21,6 +21,21 @@ def detect_delta(r, u, tier):
 
 HASH_ENVS = ['env_heap.c', 'env_cxx.c', 'env_file.c']
 
+def compress_obligations(r, u, tier, alg, prefix=''):
+    """K: the compression function (message words from bytes, schedule, every round) equals the standard; shared with C06 ("every key bit reaches the MAC")"""
+    T = 300 if tier == 'quick' else 1800
+    A = ['ALG=%d' % alg]
+    nm = ALGN[alg]
+    for j in range(NR[alg]):
+        r.add(Ob(prefix + 'K-%s-round%d' % (nm, j), 'h_c07.c', [u], defines=['H_ROUND', 'J=%d' % j] + A, unwind=90, timeout=T, envs=HASH_ENVS, solver='cadical', cbmc_extra=['--slice-formula'],
+                 note='one round from an arbitrary working state and arbitrary W[J] (state made arbitrary at the guarded observation hook)'))
+    if alg == 0:
+        r.add(Ob(prefix + 'K-%s-schedule' % nm, 'h_c07.c', [u], defines=['H_SCHED'] + A, unwind=90, timeout=T, envs=HASH_ENVS, solver='cadical'))
+    if alg == 2:   # additions: one index per query (sliced), otherwise no back end returns
+        r.add(Ob(prefix + 'K-%s-schedule-t0..15' % nm, 'h_c07.c', [u], defines=['H_SCHED', 'TSEL=0'] + A, unwind=90, timeout=T, envs=HASH_ENVS, solver='cadical', cbmc_extra=['--slice-formula']))
+        for t in range(16, 64):
+            r.add(Ob(prefix + 'K-%s-schedule-t%d' % (nm, t), 'h_c07.c', [u], defines=['H_SCHED', 'TSEL=%d' % t] + A, unwind=90, timeout=T, envs=HASH_ENVS, solver='cadical', cbmc_extra=['--slice-formula']))
+
 def run(tier):
     r = Run('C07', tier)
     u, urec = U_hash(), U_hash_rec()
@@ -32,15 +47,7 @@ def run(tier):
     for alg in (0, 1, 2):
         A = ['ALG=%d' % alg]
         nm = ALGN[alg]
-        for j in range(NR[alg]):
-            r.add(Ob('K-%s-round%d' % (nm, j), 'h_c07.c', [u], defines=['H_ROUND', 'J=%d' % j] + A, unwind=90, timeout=T, envs=HASH_ENVS, solver='cadical', cbmc_extra=['--slice-formula'],
-                     note='one round from an arbitrary working state and arbitrary W[J] (state made arbitrary at the guarded observation hook)'))
-        if alg == 0:
-            r.add(Ob('K-%s-schedule' % nm, 'h_c07.c', [u], defines=['H_SCHED'] + A, unwind=90, timeout=T, envs=HASH_ENVS, solver='cadical'))
-        if alg == 2:   # additions: one index per query (sliced), otherwise no back end returns
-            r.add(Ob('K-%s-schedule-t0..15' % nm, 'h_c07.c', [u], defines=['H_SCHED', 'TSEL=0'] + A, unwind=90, timeout=T, envs=HASH_ENVS, solver='cadical', cbmc_extra=['--slice-formula']))
-            for t in range(16, 64):
-                r.add(Ob('K-%s-schedule-t%d' % (nm, t), 'h_c07.c', [u], defines=['H_SCHED', 'TSEL=%d' % t] + A, unwind=90, timeout=T, envs=HASH_ENVS, solver='cadical', cbmc_extra=['--slice-formula']))
+        compress_obligations(r, u, tier, alg)
         r.add(Ob('R-%s-result-init-factory' % nm, 'h_c07.c', [u], defines=['H_RESULT'] + A, unwind=90, timeout=T, envs=HASH_ENVS))
         r.add(Ob('P-%s-length-counter' % nm, 'h_c07.c', [u], defines=['H_COUNTER'] + A, unwind=90, timeout=T, envs=HASH_ENVS, known_key='length-counter-%s' % nm))
         D = ['DELTA=%d' % deltas[alg]]
